@@ -56,19 +56,17 @@ Proof.
   destruct (running s) eqn:Erun.
   - unfold fetch_with_fallback. rewrite Hr. unfold sync_and_fetch.
     destruct (latest s) as [l|].
-    + destruct (fst p <? fst l); [right; eexists; reflexivity|].
-      destruct (catch_up fuel (fst p) l (fb s)) as [|l' f'|l' f'].
+    + destruct (catch_up fuel (fst p) l (fb s)) as [|l' f'|l' f'].
       * left. split; reflexivity.
       * right. eexists. reflexivity.
-      * right. rewrite Hv. eexists. reflexivity.
+      * right. rewrite Hv. destruct (fst p <? fst l'); eexists; reflexivity.
     + destruct (recv (fb s)) as [|f'|x f'].
       * left. split; reflexivity.
       * right. eexists. reflexivity.
-      * destruct (fst p <? fst x); [right; eexists; reflexivity|].
-        destruct (catch_up fuel (fst p) x f') as [|l' f''|l' f''].
+      * destruct (catch_up fuel (fst p) x f') as [|l' f''|l' f''].
         -- left. split; reflexivity.
         -- right. eexists. reflexivity.
-        -- right. rewrite Hv. eexists. reflexivity.
+        -- right. rewrite Hv. destruct (fst p <? fst l'); eexists; reflexivity.
   - right. rewrite Hr, Hv. eexists. reflexivity.
 Qed.
 
@@ -86,6 +84,42 @@ Lemma catch_up_unfold : forall fuel pts l f,
     end
   else CSome l f.
 Proof. destruct fuel; reflexivity. Qed.
+
+(* whatever the lag: when the loop ends normally the cached fallback sample is not older than the primary *)
+Lemma catch_up_reaches : forall fuel pts l f l' f',
+  catch_up fuel pts l f = CSome l' f' -> pts <= fst l'.
+Proof.
+  induction fuel as [|fu IH]; intros pts l f l' f' H; rewrite catch_up_unfold in H.
+  - destruct (fst l <? pts) eqn:E; [discriminate|]. inversion H; subst. lia.
+  - destruct (fst l <? pts) eqn:E.
+    + destruct (recv f) as [|f1|x f1]; try discriminate. apply (IH _ _ _ _ _ H).
+    + inversion H; subst. lia.
+Qed.
+
+(* a fallback sample handed out for the primary sample p always carries p's timestamp *)
+Lemma fallback_sample_same_ts : forall fuel s p pr o s',
+  running s = true -> recv (prim s) = RSmp p pr ->
+  fetch_next fuel s = FRet (Some o) s' -> o = p \/ fst o = fst p.
+Proof.
+  intros fuel s p pr o s' Hrun Hr H. unfold fetch_next in H. rewrite Hrun in H.
+  unfold fetch_with_fallback in H. rewrite Hr in H. unfold sync_and_fetch in H.
+  assert (Hgo : forall l f, match catch_up fuel (fst p) l f with
+            | CBlock => FBlock
+            | CNone l' f' => FRet (Some p) (mkF true (Some l') pr f')
+            | CSome l' f' => if fst p <? fst l' then FRet (Some p) (mkF true (Some l') pr f')
+                             else FRet (Some (if valid (snd p) then p else l')) (mkF true (Some l') pr f')
+            end = FRet (Some o) s' -> o = p \/ fst o = fst p).
+  { intros l f Hc. destruct (catch_up fuel (fst p) l f) as [|l' f'|l' f'] eqn:Ec; try discriminate.
+    - inversion Hc; subst. left; reflexivity.
+    - apply catch_up_reaches in Ec. destruct (fst p <? fst l') eqn:El.
+      + inversion Hc; subst. left; reflexivity.
+      + destruct (valid (snd p)); inversion Hc; subst; [left; reflexivity|right; lia]. }
+  destruct (latest s) as [l|].
+  - exact (Hgo _ _ H).
+  - destruct (recv (fb s)) as [|f'|x f']; try discriminate.
+    + inversion H; subst. left; reflexivity.
+    + exact (Hgo _ _ H).
+Qed.
 
 Lemma catch_up_grid : forall d (q : nat) fuel pts (l : smp) (fs : list smp) c,
   0 < d -> sgrid d (fst l + d) fs -> pts = fst l + Z.of_nat q * d ->
@@ -132,15 +166,16 @@ Proof.
   unfold fetch_next. cbn [running]. unfold fetch_with_fallback. cbn [prim]. rewrite recv_samples_cons.
   unfold sync_and_fetch. cbn [latest fb].
   destruct (z <? 0) eqn:Ez.
-  - replace (fst p <? fst l) with true by nia.
+  - rewrite catch_up_unfold. replace (fst l <? fst p) with false by nia.
+    replace (fst p <? fst l) with true by nia.
     f_equal. apply (IH (z + 1) l fs pc fc fuel (T0 + d)); try assumption; [lia|cbn [length] in Hlen |- *; lia].
-  - replace (fst p <? fst l) with false by nia.
-    assert (Hq : (Z.to_nat z <= length fs)%nat) by (cbn [length] in Hlen; lia).
+  - assert (Hq : (Z.to_nat z <= length fs)%nat) by (cbn [length] in Hlen; lia).
     rewrite (catch_up_grid d (Z.to_nat z) fuel (fst p) l fs fc Hd Hgf); [|lia|exact Hq|lia].
-    f_equal.
     assert (Hlt : (Z.to_nat z < length (l :: fs))%nat) by (cbn [length]; lia).
     assert (Hgl : sgrid d (fst l) (l :: fs)) by (split; [reflexivity|exact Hgf]).
     pose proof (sgrid_nth (l :: fs) d (fst l) (Z.to_nat z) Hgl Hlt) as Hts.
+    replace (fst p <? fst (nth (Z.to_nat z) (l :: fs) dflt)) with false by (rewrite Hts; lia).
+    f_equal.
     pose proof (sgrid_skipn (Z.to_nat z) d (fst l) (l :: fs) Hgl) as Hsk.
     rewrite (skipn_cons_nth (Z.to_nat z) (l :: fs) Hlt) in Hsk. cbn [skipn] in Hsk. destruct Hsk as [_ Hsk].
     rewrite (IH 1 (nth (Z.to_nat z) (l :: fs) dflt) (skipn (Z.to_nat z) fs) pc fc fuel (T0 + d)); try assumption.
